@@ -635,10 +635,13 @@ class _ExecutorManagerThread(threading.Thread):
                 self.terminate_broken(bpe)
                 return
             if result_item is not None:
-                self.process_result_item(result_item)
+                bpe = self.process_result_item(result_item)
                 # Delete reference to result_item to avoid keeping references
                 # while waiting on new results.
                 del result_item
+                if bpe is not None:
+                    self.terminate_broken(bpe)
+                    return
 
             if self.is_shutting_down():
                 self.flag_executor_shutting_down()
@@ -784,6 +787,15 @@ class _ExecutorManagerThread(threading.Thread):
                     f"joining {p.name} when processing {p.pid} as result_item"
                 )
                 p.join()
+                if p.exitcode != 0:
+                    # The worker announced a clean exit but died abruptly
+                    # before it was over: the locks of the queues may be left
+                    # in a dirty state, the executor cannot be trusted anymore.
+                    return TerminatedWorkerError(
+                        "A worker process managed by the executor was "
+                        "unexpectedly terminated while it was exiting (exit "
+                        f"code {p.exitcode})."
+                    )
                 del p
 
             # Make sure the executor have the right number of worker, even if a
